@@ -6,6 +6,7 @@ package store
 //                 non-membership proof;
 //   soundness:    the honest proof produced for key A, offered for ANY other key B, is never accepted
 //                 as membership of (B, value) nor as non-membership of a B that is present.
+// One key in four is a presence-only marker (empty value), as the state machine writes them.
 // Bounds: trees x keys per tree, printed in the summary line.
 
 import (
@@ -45,6 +46,9 @@ func TestVerifBoundedC16(t *testing.T) {
 		for i := 0; i < n; i++ {
 			k := lib.JoinLenPrefix([]byte("p/"), []byte(fmt.Sprintf("key-%d-%d", tr, i)))
 			v := []byte(fmt.Sprintf("val-%d", rng.Intn(1000)))
+			if rng.Intn(4) == 0 {
+				v = nil // presence-only marker keys (what the state machine writes for committee / delegate membership)
+			}
 			if e := s.Set(k, v); e != nil {
 				t.Fatal(e)
 			}
@@ -174,6 +178,9 @@ histories:
 					trace = append(trace, fmt.Sprintf("del %d", k))
 				} else {
 					v := fmt.Sprintf("v%d-%d-%d", h, b, rng.Intn(100))
+					if rng.Intn(5) == 0 {
+						v = "" // presence-only marker
+					}
 					if e := s.Set(key(k), []byte(v)); e != nil {
 						report("history.error", fmt.Sprintf("history=%d seed=%d: Set: %v trace=%v", h, seed, e, trace))
 						continue histories
